@@ -8,6 +8,7 @@ package util
 import (
 	"fmt"
 	"hash/fnv"
+	"sort"
 	"strconv"
 	"testing"
 
@@ -46,44 +47,6 @@ func (c c11KCase) String() string {
 	return fmt.Sprintf("{pods(frees [used mem,cpu][request batch-cpu,mid-cpu]):%v tasks:%+v alreadyEvicted:%v failingCalls:%v}", c.Pods, c.Tasks, c.Already, c.Fails)
 }
 
-type c11KExec struct {
-	tasks   []c11Task
-	already []bool
-	fails   []bool
-	calls   int
-	events  []c11Event
-}
-
-func c11PodIndex(pod *corev1.Pod) int {
-	if pod == nil || len(pod.Name) < 2 {
-		return -1
-	}
-	i, err := strconv.Atoi(pod.Name[1:])
-	if err != nil {
-		return -1
-	}
-	return i
-}
-
-func (e *c11KExec) Evict(pod *corev1.Pod, node *corev1.Node, releaseReason string, message string) bool {
-	i := c11PodIndex(pod)
-	fail := e.calls < len(e.fails) && e.fails[e.calls]
-	e.calls++
-	ok := !fail
-	if i >= 0 && i < len(e.already) && e.already[i] {
-		ok = true // like Evictor.EvictPodIfNotEvicted: an already evicted pod reports success
-	}
-	e.events = append(e.events, c11Event{Evict: true, Pod: i, Task: c11TaskOfMessage(e.tasks, message), OK: ok})
-	return ok
-}
-
-func (e *c11KExec) IsPodEvicted(pod *corev1.Pod) bool {
-	i := c11PodIndex(pod)
-	ok := i >= 0 && i < len(e.already) && e.already[i]
-	e.events = append(e.events, c11Event{Evict: false, Pod: i, Task: -1, OK: ok})
-	return ok
-}
-
 var c11KNode = &corev1.Node{ObjectMeta: metav1.ObjectMeta{Name: "c11-node"}}
 
 func c11KMakePods(n int) []*corev1.Pod {
@@ -111,9 +74,9 @@ func c11KModelTasks(c *c11KCase) []c11Task {
 }
 
 // c11KRun executes one case on the real KillAndEvictPods.
-func c11KRun(c *c11KCase, pods []*corev1.Pod) (ex *c11KExec, returned map[string]map[string]int64, newly bool, panicS string) {
+func c11KRun(c *c11KCase, pods []*corev1.Pod) (ex *c11Exec, returned map[string]map[string]int64, newly bool, panicS string) {
 	model := c11KModelTasks(c)
-	ex = &c11KExec{tasks: model, already: c.Already, fails: c.Fails}
+	ex = &c11Exec{tasks: model, already: c.Already, fails: c.Fails}
 	tasks := make([]*EvictTaskInfo, len(c.Tasks))
 	for k := range c.Tasks {
 		s := c.Tasks[k]
@@ -159,7 +122,7 @@ func c11KRun(c *c11KCase, pods []*corev1.Pod) (ex *c11KExec, returned map[string
 	return
 }
 
-func c11KJudge(c *c11KCase, ex *c11KExec, returned map[string]map[string]int64, count c11Counter) []c11Finding {
+func c11KJudge(c *c11KCase, ex *c11Exec, returned map[string]map[string]int64, count c11Counter) []c11Finding {
 	model := ex.tasks
 	typeIdx := map[string]int{string(c11KTypes[0]): 0, string(c11KTypes[1]): 1}
 	run := &c11Run{
@@ -307,6 +270,7 @@ func c11KScenarios(env *mc.Env) []c11KScenario {
 		s = append(s, c11KScenario{name: fmt.Sprintf("2task-request-a+ab-n%d", n), n: n, alpha: req2s, tasks: []c11KTmpl{Q, Q2}})
 		s = append(s, c11KScenario{name: fmt.Sprintf("2task-request-a+b-n%d", n), n: n, alpha: req2s, tasks: []c11KTmpl{Q, QB}})
 	}
+	sort.SliceStable(s, func(i, j int) bool { return s[i].n < s[j].n }) // small pod sets first: they always complete
 	return s
 }
 
@@ -337,6 +301,7 @@ func TestVerifC11Kill(t *testing.T) {
 		sc := sc
 		res := mc.NewResult("C11", "kill-"+sc.name, "faults")
 		ds := mc.NewDistinctSet()
+		rep := &c11Reporter{}
 		pods := c11KMakePods(sc.n)
 		sub := c11OrderedSublists(sc.n)
 		two := len(sc.tasks) == 2
@@ -431,11 +396,14 @@ func TestVerifC11Kill(t *testing.T) {
 				l.Evals++
 				ex, ret, newly, ps := c11KRun(&cc, pods)
 				if ps != "" {
-					res.Violate(mc.Violation{Key: "C11|kill|panic", What: ps + " case " + cc.String(), Replay: cc})
+					rep.Report(res, l, "C11|kill|panic", func() (string, any) { return ps + " case " + cc.String(), cc })
 					return ex.calls
 				}
 				for _, f := range c11KJudge(&cc, ex, ret, l.Count) {
-					res.Violate(mc.Violation{Key: "C11|kill|" + f.Clause, What: fmt.Sprintf("%s; case %v; calls %+v; returned %v", f.What, cc, c11EvictsOnly(ex.events), ret), Replay: cc})
+					f := f
+					rep.Report(res, l, "C11|kill|"+f.Clause, func() (string, any) {
+						return fmt.Sprintf("%s; case %v; calls %+v; returned %v", f.What, cc, c11EvictsOnly(ex.events), ret), cc
+					})
 				}
 				anyOK := false
 				for _, e := range ex.events {
@@ -472,20 +440,4 @@ func TestVerifC11Kill(t *testing.T) {
 		}
 		env.Emit(res)
 	}
-}
-
-func c11EvictsOnly(ev []c11Event) []string {
-	var out []string
-	for _, e := range ev {
-		if e.Evict {
-			r := "ok"
-			if !e.OK {
-				r = "FAILED"
-			}
-			out = append(out, fmt.Sprintf("Evict(p%d)@task%d:%s", e.Pod, e.Task, r))
-		} else if e.OK {
-			out = append(out, fmt.Sprintf("IsPodEvicted(p%d)=true", e.Pod))
-		}
-	}
-	return out
 }
